@@ -193,7 +193,7 @@ fn cmd_check_inner(m: &HashMap<String, String>) -> i32 {
     let known_path = m.get("known").cloned().unwrap_or_else(|| "/verif/known_findings.json".into());
     let det_runs = get_u64(m, "det-runs", if tier == "thorough" { 20_480 } else { 2_048 });
     let det_seeds = get_u64(m, "det-seeds", if tier == "thorough" { 4 } else { 1 });
-    println!("C18 check: tier={} VERIF_SEED={} runs={} workers={}", tier, seed, runs, workers);
+    println!("C18 check: tier={} VERIF_SEED={} runs={} workers={} build={}", tier, seed, runs, workers, BUILD_PROFILE);
     let t0 = Instant::now();
 
     let known = match load_known(&known_path) {
@@ -332,6 +332,34 @@ fn cmd_check_inner(m: &HashMap<String, String>) -> i32 {
         }
     }
 
+    // 5c. the second build configuration (run by ./check before this process with the dbgcfg binary,
+    //     handed over as its evidence file; a violation found there never reaches this point)
+    let second_cfg: J = match m.get("config-summary") {
+        Some(p) => match std::fs::read_to_string(p).map_err(|e| e.to_string()).and_then(|t| json::parse(&t)) {
+            Ok(j) => {
+                let c = j.get("coverage").cloned().unwrap_or(J::Null);
+                let pick = |k: &str| c.get(k).cloned().unwrap_or(J::Null);
+                J::obj(vec![
+                    ("build_profile", pick("build_profile")),
+                    ("what", J::s("the same seeded plan stream (same VERIF_SEED, run indices from 0) executed by a second binary in which vek and the simulator are compiled with debug assertions and overflow checks on (cargo profile dbgcfg, opt-level 1): code under cfg(debug_assertions) / debug_assert!, arithmetic that would wrap in release, and core's unsafe-precondition checks (ptr::read alignment, get_unchecked bounds, unwrap_unchecked, from_raw_parts) are live; a failed check aborts and is reported by the supervisor as V11")),
+                    ("evaluations", pick("evaluations")),
+                    ("distinct_nontrivial", pick("distinct_nontrivial")),
+                    ("simulated_steps_executed", pick("simulated_steps_executed")),
+                    ("fault_kinds", pick("fault_kinds")),
+                    ("cursor_states_total", pick("cursor_states_total")),
+                    ("batch_digest", pick("batch_digest")),
+                    ("wall_s", j.get("wall_s").cloned().unwrap_or(J::Null)),
+                    ("violations", j.get("violations").cloned().unwrap_or(J::Null)),
+                ])
+            }
+            Err(e) => {
+                eprintln!("harness error: cannot read the second configuration's summary {}: {}", p, e);
+                return EXIT_HARNESS;
+            }
+        },
+        None => J::s("not run"),
+    };
+
     // 6. evidence
     let wall = t0.elapsed().as_secs_f64();
     let st = &res.stats;
@@ -408,6 +436,8 @@ fn cmd_check_inner(m: &HashMap<String, String>) -> i32 {
             ]),
         ),
         ("miri_pass", miri_summary),
+        ("build_profile", J::s(BUILD_PROFILE)),
+        ("second_build_configuration", second_cfg),
         ("known_findings_seen", J::Arr(known_lines.iter().map(|l| J::s(l.clone())).collect())),
         ("violation", viol_json),
     ]);
